@@ -187,7 +187,7 @@ PROPS = {
     'C13': {'jobs': [dict(CODEC, pviol_prefix=['C13-']), HSD, E2E_HS, E2E_T], 'assumptions': [
         'the CRC is uninterpreted in the theorems; the driver recomputes every checksum with its own bitwise CRC32c, '
         'which the harness compares with hash/crc32 on random strings']},
-    'C03': {'jobs': [dict(CODEC, pviol_prefix=['C03-']), ASND, ARCV, E2E_PR], 'assumptions': [
+    'C03': {'jobs': [dict(CODEC, pviol_prefix=['C03-']), ASND, ARCV, E2E_PR, HSD], 'assumptions': [
         'decoder part (Props/C03dec.lean) and receive half (Props/C03recv.lean): panics are the explicit panic outcomes of the L0 models; '
         'the harnesses run every decode / every inbound packet under recover()']},
 }
